@@ -175,6 +175,92 @@ def r21_2(ctx, rep):
     rep.ob(R, API + ":transfer_model", "InvalidCacheError -> recompile + save", ok, "a rejected cache file must be replaced by a fresh compile")
 
 
+@SPEC.rule(
+    "R21.4",
+    "nothing touches the cache file outside the guarded load: in load_model the handle of the opened cache file is used only as the "
+    "argument of the pickle.load whose handlers convert to InvalidCacheError — a seek/read/peek placed before the try (a `cheap "
+    "truncation test`) meets the empty file of a writer that has opened but not yet written, raises OSError / struct.error there, and "
+    "transfer_model's fallback does not catch it",
+)
+def r21_4(ctx, rep):
+    R = "R21.4"
+    fn = api_fn(ctx, "load_model", R)
+    site = API + ":load_model"
+    n = 0
+    for w in walk_local(fn):
+        if not isinstance(w, ast.With):
+            continue
+        for it in w.items:
+            if not (isinstance(it.context_expr, ast.Call) and is_name(it.context_expr.func, "open") and it.optional_vars is not None and isinstance(it.optional_vars, ast.Name)):
+                continue
+            mode = const_str(it.context_expr.args[1]) if len(it.context_expr.args) > 1 else "r"
+            if not mode or "b" not in mode or "w" in mode:
+                continue
+            n += 1
+            f = it.optional_vars.id
+            bad = []
+            for x in ast.walk(w):
+                if isinstance(x, ast.Name) and x.id == f and isinstance(x.ctx, ast.Load):
+                    # climb to the enclosing statement; it must be inside a Try body whose handlers convert EOFError / UnpicklingError
+                    p_, prev, guarded, stmt = getattr(x, "_parent", None), x, False, None
+                    while p_ is not None and p_ is not w:
+                        if isinstance(p_, ast.stmt) and stmt is None:
+                            stmt = p_
+                        if isinstance(p_, ast.Try) and prev in p_.body:
+                            names = set()
+                            for h in p_.handlers:
+                                cl, _u = handler_classes(h)
+                                if all(covers(cl, e) for e in NEED) or any(covers(cl, e) for e in NEED):
+                                    names.add(1)
+                            guarded = guarded or bool(names)
+                        prev, p_ = p_, getattr(p_, "_parent", None)
+                    # a rebinding of the name (f = ca.external(...)) is not a use of the file
+                    if stmt is not None and not guarded and not (isinstance(stmt, ast.Assign) and any(is_name(t, f) for t in stmt.targets) and not any(
+                            isinstance(y, ast.Name) and y.id == f and isinstance(y.ctx, ast.Load) for y in ast.walk(stmt.value))):
+                        # uses after the name was rebound to something else are not uses of the file either
+                        rebound = [st for st in ast.walk(w) if isinstance(st, ast.Assign) and any(is_name(t, f) for t in st.targets)]
+                        if rebound and min(r.lineno for r in rebound) <= x.lineno:
+                            continue
+                        bad.append("line %d: %s" % (x.lineno, norm(stmt)[:60]))
+            rep.ob(R, site, "the cache file handle `%s` is read only inside the guarded load" % f, not bad,
+                   "; ".join(bad[:3]) + " — this statement runs outside the try that turns a torn file into InvalidCacheError")
+    if n < 1:
+        raise MechanismMissing(R, "load_model no longer opens the cache file with `with open(..., 'rb') as f`")
+
+
+@SPEC.rule(
+    "R21.5",
+    "if the cache is published by renaming a scratch file, every writer has a scratch file of its own: the source of the os.replace in "
+    "save_model comes from tempfile (mkstemp / NamedTemporaryFile) or carries the process id / a uuid — a scratch name that is a pure "
+    "function of the final name is shared by two transfer_model calls that both miss the cache, and the slower one's rename raises "
+    "FileNotFoundError from inside transfer_model's fallback branch",
+)
+def r21_5(ctx, rep):
+    from ..pyutil import inlined
+    R = "R21.5"
+    fn = api_fn(ctx, "save_model", R)
+    site = API + ":save_model"
+    reps = [c for c in calls(fn) if call_name(c) in ("os.replace", "os.rename", "shutil.move") and len(c.args) == 2]
+    if not reps:
+        rep.note("R21.5 save_model writes the cache file in place (no rename publish): the total-loader discipline of R21.1 applies, nothing to decide here")
+        rep.ob(R, site, "no shared scratch file (in-place write)", True, "")
+        return
+    body = [st for st in ast.walk(fn) if isinstance(st, ast.stmt)]
+    for c in reps:
+        src = inlined(c.args[0], body)
+        txt = norm(src)
+        unique = any(k in txt for k in ("mkstemp", "NamedTemporaryFile", "mkdtemp", "getpid", "uuid", "token_hex", "urandom", "gettempprefix"))
+        # a with-target of NamedTemporaryFile: <tmp>.name
+        for w in ast.walk(fn):
+            if isinstance(w, ast.With):
+                for it in w.items:
+                    if "NamedTemporaryFile" in norm(it.context_expr) or "mkstemp" in norm(it.context_expr):
+                        if it.optional_vars is not None and norm(it.optional_vars) in txt:
+                            unique = True
+        rep.ob(R, site, "scratch file of `%s` is private to the writer" % norm(c)[:50], unique,
+               "the scratch path `%s` depends on the final name only: two concurrent writers share it, the second rename finds it gone" % txt[:80])
+
+
 # -- seeded variants ---------------------------------------------------------
 from ._mut import replace_in_func  # noqa: E402
 
@@ -227,3 +313,16 @@ def _m_excl(mod):
         return False
 
     return mod if replace_in_func(mod, "save_model", edit) else None
+
+
+@SPEC.mutant("truncation sniff before the guarded load", API, "R21.4", "read only inside the guarded load")
+def _m_sniff(mod):
+    def edit(fn):
+        for w in ast.walk(fn):
+            if isinstance(w, ast.With) and any("'rb'" in norm(i.context_expr) for i in w.items):
+                w.body.insert(0, ast.parse("f.seek(-1, os.SEEK_END)").body[0])
+                w.body.insert(1, ast.parse("f.seek(0)").body[0])
+                return True
+        return False
+
+    return mod if replace_in_func(mod, "load_model", edit) else None
